@@ -127,7 +127,11 @@ def check_order(db, chk):
         # publication is reported by `nothing-after-publish` below, by name
         wt = [x for x in wt if wmb in c.reachable_from([x[0]]) and not c.dominates(wmb, x[0])]
         if len(wt) != 1:
-            raise AnchorMissing("%s: %d write_transaction_file call(s) precede publication (expected 1)" % (key, len(wt)))
+            # (e.g. the transaction file moved into a closure / future that runs concurrently with the publication)
+            chk.ob(R, "txn-file-before-publish:%s" % key, False,
+                   "%s: %d write_transaction_file call(s) are completed before write_manifest_file is called (required: exactly one; the "
+                   "transaction file must exist before the manifest that names it is published)" % (key, len(wt)), body.loc(wmt["ln"]))
+            continue
         # the transaction file is written (when enabled) before any manifest is built
         r_wo = c.reachable_from([0], include_start=True, avoid=[wt[0][0]])
         dis = calls(body, "ManifestWriteConfig::disable_transaction_file")
